@@ -95,10 +95,17 @@ def _syn_cfgs(tier):
     return codes.catalogue(tier)
 
 
+def _syn_eq_cfgs(tier):
+    # ReedMullerCodeEncoder overrides calculate_syndrome with "difference to the nearest codeword": a valid syndrome
+    # (zero iff codeword - that clause is C01.zero_syndrome_codeword / C01.codeword_zero_syndrome) but not y.H^T,
+    # so the helper contract "== y.H^T" is not stated for it.
+    return [c for c in codes.catalogue(tier) if c.family != "rm"]
+
+
 @obligation(
     "C01.syndrome",
-    function=F + "linear_block_code.py:LinearBlockCodeEncoder.calculate_syndrome; " + F + "reed_solomon_code.py:ReedSolomonCodeEncoder.calculate_syndrome; " + F + "reed_muller_code.py:ReedMullerCodeEncoder.calculate_syndrome",
-    configs=_syn_cfgs,
+    function=F + "linear_block_code.py:LinearBlockCodeEncoder.calculate_syndrome; " + F + "reed_solomon_code.py:ReedSolomonCodeEncoder.calculate_syndrome",
+    configs=_syn_eq_cfgs,
     max_paths=20000,
 )
 def syndrome(ctx, cfg):
@@ -109,8 +116,7 @@ def syndrome(ctx, cfg):
     k, n = enc.generator_matrix.shape
     Ht = [list(r) for r in zip(*SP.int_matrix(enc.check_matrix))] if enc.check_matrix.numel() else [[] for _ in range(n)]
     r = len(Ht[0]) if Ht else 0
-    big = cfg.family == "rm" and n > 8  # RM's syndrome goes through its nearest-codeword search: one path per decision
-    for name, shape in ([("1d", (n,)), ("Bn", (2, n))] if not big else [("1d", (n,))]):
+    for name, shape in [("1d", (n,)), ("Bn", (2, n)), ("Bbn", (1, 2 * n))]:
         y = ctx.bits(f"y_{name}", shape)
         out = ctx.call(enc.calculate_syndrome, y)
         ctx.ensure(f"{name}.returns", out.ok, note=repr(out.exc) if not out.ok else "")
